@@ -72,6 +72,16 @@ def c01(v):
                               "%s began" % (name, b[SEQ], par)))
             for r in reqs:
                 f = v.fin(r)
+                if f is not None and f[SEQ] < b[SEQ] and v.is_sched(r):
+                    busy = [d for d in v.descendants(r)
+                            if v.inside(d, b[SEQ])]
+                    if busy:
+                        viols.append((
+                            'c01:nested-run-not-over',
+                            "%s begins at #%d t=%s although %s, inside its "
+                            "requirement %s, %s still executing"
+                            % (name, b[SEQ], b[T], busy, r,
+                               'is' if len(busy) == 1 else 'are')))
                 if f is None or f[SEQ] > b[SEQ]:
                     viols.append((
                         'c01:start-before-req',
@@ -439,6 +449,23 @@ def check_abort(v, s, seq0, t0, tag, what):
                                                            x[0][T]))))
             elif x[0][KIND] in ('cancel', 'creq') and not v.is_sched(k):
                 cancelled_cd = max(cancelled_cd, v.spec[k].get('cdelay', 0))
+    # nothing deeper inside s may enter its body after the abort either,
+    # unless in that same instant and cancelled (or finished) in it
+    for d in v.descendants(s):
+        if d in kids:
+            continue
+        for b in v.all(mc.BEGIN, d):
+            if b[SEQ] <= seq0:
+                continue
+            x = [e for e in v.all(CANCELS + tuple(mc.FIN), d)
+                 if e[SEQ] > b[SEQ]]
+            if b[T] != t0 or not x or x[0][T] != t0:
+                viols.append((tag + ':starts-after:nested',
+                              "%s (nested inside %s) enters its body at t=%s "
+                              "(#%d) although %s at t=%s%s"
+                              % (d, s, b[T], b[SEQ], what, t0,
+                                 '' if b[T] != t0 else
+                                 ' and is not cancelled at that instant')))
     x = v.exit(s)
     ext = v.evs('run_cancel', s)
     if x is not None and not ext:
